@@ -76,7 +76,7 @@ func c17Run(c c17Case) (v *verdict, labels []string, overlapped bool) {
 		refs[i] = c17Reference(dir, pr)
 	}
 	// one shared box holding the union of the configurations' warm caches
-	shared := mergedBox(dir)
+	shared := mergedBox(dir, map[string]bool{"default": true, "tiny": true, "literals": true, "seed": true, "literals+tiny": true})
 	switch c.Cache {
 	case "linkerless":
 		h.RemoveAll(filepath.Join(shared.GarbleCache, "tool"))
